@@ -200,8 +200,28 @@ fn check_parent(run: &Run, pnode: &Node, cfg: &AlphaCfg, max_batch: usize) {
                                 applied.insert(inv.hash_nosigs());
                             }
                         }
-                        u.apply_tx(t).ok()?;
-                        applied.insert(t.hash_nosigs());
+                        // attempts that hold the transaction twice (a re-signed copy; a rival spender of the same coins) come first: they
+                        // are refused as a whole, and if one is not, what it left in the block is what the block must say
+                        let mut resigned = t.clone();
+                        resigned.sigs.push(vec![0xbc; 64].into());
+                        let mut in_block = false;
+                        if u.apply_tx_batch(&[t.clone(), resigned]).is_ok() {
+                            applied.insert(t.hash_nosigs());
+                            in_block = true;
+                        }
+                        if !in_block && !t.inputs.is_empty() {
+                            let mut rival = t.clone();
+                            rival.data = vec![0x7e, 0x7e].into();
+                            if u.apply_tx_batch(&[t.clone(), rival.clone()]).is_ok() {
+                                applied.insert(t.hash_nosigs());
+                                applied.insert(rival.hash_nosigs());
+                                in_block = true;
+                            }
+                        }
+                        if !in_block {
+                            u.apply_tx(t).ok()?;
+                            applied.insert(t.hash_nosigs());
+                        }
                         let _ = u.apply_tx(t);
                         let _ = u.apply_tx_batch(&[t.clone(), t.clone()]);
                         // a batch whose *last* member fails late (a faucet already in the block): its earlier members must not stay behind
@@ -258,6 +278,31 @@ fn check_parent(run: &Run, pnode: &Node, cfg: &AlphaCfg, max_batch: usize) {
                     run.validated();
                 }
             }
+            // a block that holds a double spend by construction (a member and a rival spending the same coins), with whatever header
+            // the implementation's own seal gives it: not all of its transactions are valid, so it is not accepted
+            for t in batch.iter().filter(|t| !t.inputs.is_empty()) {
+                let mut rival = t.clone();
+                rival.data = vec![0x7e, 0x7e, 0x01].into();
+                let mut bad = batch.clone();
+                bad.push(rival);
+                let built = guard(|| {
+                    let mut u = parent.next_unsealed();
+                    u.apply_tx_batch(&bad).ok()?;
+                    Some(u.seal(*act).to_block())
+                });
+                run.transition();
+                if let Ok(Some(blk)) = built {
+                    if let Ok(Ok(_)) = guard(|| parent.apply_block(&blk).map(|s| s.header())) {
+                        run.violation(
+                            "C06",
+                            "accepts-block-with-double-spend".into(),
+                            format!("apply_block accepted a block on [{}] that holds [{}] and a second transaction spending the same coins as one of them", path, label),
+                            json!({"parent_path": path, "block": label, "block_stdcode_hex": hex::encode(stdcode::serialize(&blk).unwrap())}),
+                        );
+                    }
+                }
+                run.validated();
+            }
             // honest child
             let child = guard(|| {
                 let mut u = parent.next_unsealed();
@@ -304,6 +349,15 @@ fn check_parent(run: &Run, pnode: &Node, cfg: &AlphaCfg, max_batch: usize) {
                 t2.sigs.push(vec![0xbb; 64].into());
                 b.transactions.insert(t2);
                 judge(run, &parent, &b, "tx:added-signature-variant-of-member", true, &path, &label);
+            }
+            // add a rival of a member: another transaction (another hash) spending the very same coins - for a member that spends
+            // a coin made in this block, the double spend is of a coin the parent state does not hold
+            for t in blk.transactions.iter().filter(|t| !t.inputs.is_empty() && t.kind == melstructs::TxKind::Normal) {
+                let mut b = blk.clone();
+                let mut t2 = t.clone();
+                t2.data = vec![0x7e, 0x7e].into();
+                b.transactions.insert(t2);
+                judge(run, &parent, &b, "tx:added-rival-spender-of-member", true, &path, &label);
             }
             // replace each transaction: other output value / same hash_nosigs but extra signature
             for t in blk.transactions.iter() {
